@@ -1,6 +1,8 @@
 import AmaranthVerif.Model.Sexp
 import AmaranthVerif.Model.Expr
 import AmaranthVerif.Spec.Denote
+import AmaranthVerif.Model.Assign
+import AmaranthVerif.Spec.AssignSpec
 
 /-! # Reading expressions from the line protocol (unverified I/O glue) -/
 
@@ -83,6 +85,20 @@ def handleExpr : Sexp → Option String
       let outs := es.map fun env =>
         s!"rtl={norm sh (evalRtl ctx env ex)} old={norm sh (evalRtlUnfixed ctx env ex)} tb={evalTb ctx env ex} spec={denote ctx env ex}"
       some (s!"eval {showShape sh} wf={if ex.wf ctx then 1 else 0} ; " ++ " ; ".intercalate outs)
+  | _ => none
+
+def showEnv (e : Env) : String := ",".intercalate (e.map toString)
+
+/-- `(assign ctx target v env*)` → per env: `tb=<ints> old=<ints> rtl=<ints> spec=<ints>` -/
+def handleAssign : Sexp → Option String
+  | .list (.atom "assign" :: c :: t :: v :: envs) => do
+      let ctx ← parseCtx c
+      let tgt ← parseExpr ctx t
+      let val ← toInt? v
+      let es ← envs.mapM parseEnv
+      let outs := es.map fun env =>
+        s!"tb={showEnv (assignTb ctx env tgt val)} old={showEnv (assignTbUnfixed ctx env tgt val)} rtl={showEnv (assignRtl ctx env tgt val)} spec={showEnv (assignSpec ctx env tgt val)}"
+      some (s!"assign ok={if tgt.assignable && tgt.wf ctx then 1 else 0} ; " ++ " ; ".intercalate outs)
   | _ => none
 
 end Amaranth
